@@ -122,6 +122,12 @@ def stress_model():
         '<businessKnowledgeModel name="reent" id="b_reent"><variable name="reent"/><encapsulatedLogic><formalParameter name="n" typeRef="number"/>'
         '<literalExpression><text>svf() + n</text></literalExpression></encapsulatedLogic>'
         '<knowledgeRequirement><requiredKnowledge href="#s_svf"/></knowledgeRequirement></businessKnowledgeModel>',
+        # a decision service with an INPUT decision (idb), whose output decision (itot) requires it, next to direct evaluations of idb and itot by other
+        # threads: inside the service idb is a parameter, outside it is computed from a - at the same time, over the same evaluator (anything that marks
+        # `idb is supplied` in a place shared between calls shows here; seeded change C20_k: an atomic mark on the decision's entry)
+        lit('idb', 'a * 2 + fib(9)', inputs=['a'], knowledge=['fib']),
+        lit('itot', 'idb + fib(14)', decisions=['idb'], knowledge=['fib']),
+        '<decisionService name="sin" id="s_sin"><variable name="sin"/><outputDecision href="#d_itot"/><inputDecision href="#d_idb"/></decisionService>',
         lit('top', '{n: num, t: tbl, r: rex, f: fib(modulo(abs(floor(a)), 11))}', decisions=['num', 'tbl', 'rex'], knowledge=['fib'], inputs=['a']),
         '<decisionService name="svc" id="s_svc"><variable name="svc"/><outputDecision href="#d_top"/><encapsulatedDecision href="#d_num"/>'
         '<encapsulatedDecision href="#d_tbl"/><encapsulatedDecision href="#d_rex"/><inputData href="#i_a"/><inputData href="#i_s"/></decisionService>',
@@ -137,7 +143,7 @@ def gen_calls(rng, n):
         a = rng.choice([0, 1, 5, 6.5, 7, 9.99, 10, 25, 50, 99, 100, 1001, -3, -0.5, 123456.789]) if rng.random() < 0.7 else round(rng.uniform(-50, 1500), 3)
         s = rng.choice(words)
         d = rng.choice(dates)
-        inv = rng.choice(['num', 'tmp', 'rex', 'tbl', 'top', 'top', 'svc', 'fib', 'rnd', 'rnd', 'trn', 'trn', 'pri', 'pri', 'ord', 'ord', 'c0', 'c0', 'c75', 'zon', 'zon', 'zon', 'reent', 'reent', 'reent', 'ek', 'ek', 'ek', 'ek', 'dsf', 'dsf', 'dsf', 'pad', 'pad'])
+        inv = rng.choice(['num', 'tmp', 'rex', 'tbl', 'top', 'top', 'svc', 'fib', 'rnd', 'rnd', 'trn', 'trn', 'pri', 'pri', 'ord', 'ord', 'c0', 'c0', 'c75', 'zon', 'zon', 'zon', 'reent', 'reent', 'reent', 'ek', 'ek', 'ek', 'ek', 'dsf', 'dsf', 'dsf', 'pad', 'pad', 'sin', 'sin', 'sin', 'idb', 'idb', 'itot', 'itot'])
         if inv == 'pad':
             # an invocable called by a name with stray white space, a spelling not used before in this run (unknown invocable: null, alone and
             # concurrently; anything that LEARNS such names under a write lock at first sight shows here; seeded change C20_h)
@@ -145,6 +151,8 @@ def gen_calls(rng, n):
             ctx = '{a: %s, s: "%s", d: date("%s")}' % (a, s, d)
         elif inv == 'dsf':
             ctx = '{}'
+        elif inv == 'sin':
+            ctx = '{idb: %d}' % rng.randint(0, 50)
         elif inv == 'reent':
             ctx = '{n: %d}' % rng.randint(0, 5)
         elif inv == 'ek':
